@@ -539,7 +539,10 @@ class ExprMixin(object):
       return None
     # keep facts learned under the guard (e.g. len >= 0), guarded
     for extra in s1.pc[n0:]:
-      st.assume(z3.Implies(guard, extra))
+      if extra.get_id() in s1.wf_ids:
+        st.assume_wf(extra)
+      else:
+        st.assume(z3.Implies(guard, extra))
     # arrays first touched inside: make them visible
     for k, a in s1.heap.items():
       if k not in st.heap:
